@@ -329,20 +329,21 @@ static void mode_realloc(void) {
   /* mi_new_realloc / mi_new_reallocn / mi_new(_n): the first attempt is refused by the OS, the new-handler returns, the retry
      succeeds: contents preserved, the old block released exactly once (block count of the heap), nothing handed out twice */
   /* the allocating forms: the handler has to be called twice before memory is available (the retry loop must keep going) */
-  for (int form = 0; form < 4; form++) {
+  for (int form = 0; form < 6; form++) {
     long my = idx++;
     if ((my % g_workers) != g_worker) continue;
     g_case = my;
-    static const char* fn[] = { "mi_new", "mi_new_n", "mi_new_nothrow", "mi_new_aligned" };
+    static const char* fn[] = { "mi_new", "mi_new_n", "mi_new_nothrow", "mi_new_aligned(64)", "mi_new_aligned(4 MiB)", "mi_new_aligned(64 MiB)" };
+    static const size_t al[] = { 0, 0, 0, 64, 4 * MI_MiB, 64 * MI_MiB };
     CASE_BEGIN("realloc #%ld %s(2 GiB) with a new-handler that makes memory available on its second call", my, fn[form]);
     VF_INC(nodes); VF_INC(transitions); VF_INC(checks);
     g_nh_armed_set(1); g_nh_calls = 0; g_nh_need = 2;
     vf_os.fail_from = vf_os.ncalls; vf_os.fail_kinds = (1u << VF_C_MMAP);
     size_t big = (size_t)2048 * MI_MiB + 4096;
-    void* q = (form == 0 ? mi_new(big) : form == 1 ? mi_new_n(big / 8, 8) : form == 2 ? mi_new_nothrow(big) : mi_new_aligned(big, 64));
+    void* q = (form == 0 ? mi_new(big) : form == 1 ? mi_new_n(big / 8, 8) : form == 2 ? mi_new_nothrow(big) : mi_new_aligned(big, al[form]));
     g_nh_armed_set(0); g_nh_need = 1; vf_os_plan_clear();
     if (q == NULL || g_nh_calls != 2) { VIOL("new-handler-loop", "%s returned %p after %d new-handler calls; expected a block after exactly 2 calls (allocate; on failure call the handler; repeat)", fn[form], q, g_nh_calls); return; }
-    if (vf_model_alloc(q, 4096, form == 3 ? 64 : 0, 0, 0, 0, fn[form]) < 0) return;
+    if (vf_model_alloc(q, 4096, al[form], 0, 0, 0, fn[form]) < 0) return;     /* (the alignment survives the retries) */
     vf_model_remove_ordered(vf_nlive - 1); mi_free(q);
     vf_err_count = 0;
     VF_INC(nontrivial);
@@ -912,6 +913,8 @@ static void mode_badargs(void) {
  *   kind 0: one foreign byte just past the requested size, block freed by its own thread      -> EFAULT
  *   kind 1: the same, block freed by another thread (owner alive)                              -> EFAULT
  *   kind 2: second free of a block whose page holds another live block                         -> exactly one EAGAIN, ignored
+ *   kind 4: a released block's link is overwritten, then an older released block of the same page is freed again: the scan for the
+ *           double free reaches the forged link                                                 -> reported (EFAULT), not followed; the case ends there
  *   kind 3: control: an intact block of a page in the full queue, freed by another thread (the free goes through the owner's
  *           delayed list, a hardened build stores its link inside the block), owner collects     -> no report at all, block re-usable
  * ============================================================================================== */
@@ -946,6 +949,22 @@ static void hd_case(int kind, size_t n) {
     if (vf_model_alloc(b, n, 0, 0, 0, 0, "mi_malloc") < 0) return;
     if (vf_model_check_all("after double free") != 0) return;
 #endif
+    VF_INC(nontrivial);
+    return;
+  }
+  if (kind == 4) {
+    uint8_t* x = (uint8_t*)mi_malloc(n);
+    if (x == NULL) { VIOL("null-result", "mi_malloc(%zu) returned NULL", n); return; }
+    if (_mi_ptr_page(nb) != _mi_ptr_page(p) || _mi_ptr_page(x) != _mi_ptr_page(p)) return;   /* needs three blocks in one page */
+    mi_free(x); mi_free(p);                               /* p is now in front of x on the page's list of released blocks */
+    if (vf_err_count != 0) { VIOL("error-callback", "free of a valid block reported error %d", vf_err_last); return; }
+    uint64_t forged = 0x4141414141414141ULL; memcpy(p, &forged, sizeof(forged));     /* use after free: the link of p */
+#if MI_DEBUG
+    hd_expect_efault = 1; vf_error_hook = &hd_error_hook;
+#endif
+    mi_free(x);                                           /* second free of x: the allocator scans the released blocks and meets p's link */
+    if (vf_err_count < 1) { VIOL("forged-link-unreported", "the scan for a double free of a %zu-byte block passed a released block whose link had been overwritten, and nothing was reported", n); return; }
+    if (vf_err_last != EFAULT && vf_err_last != EAGAIN) { VIOL("error-callback", "unexpected error code %d", vf_err_last); return; }
     VF_INC(nontrivial);
     return;
   }
@@ -1008,8 +1027,8 @@ static void mode_hardened(void) {
   for (int si = 0; si < g_nsizes + 130; si++) {
     size_t n = (si < 130 ? (size_t)si + 1 : g_sizes[si - 130]);     /* every size 1..130, then the boundary grid */
     if (n == 0 || n > 2 * MI_MiB) continue;
-    for (int kind = 0; kind < 4; kind++) {
-      if (kind == 3 && n > 8 * 1024) continue;
+    for (int kind = 0; kind < 5; kind++) {
+      if (kind >= 3 && n > 8 * 1024) continue;
       long my = idx++;
       if ((my % g_workers) != g_worker) continue;
       g_case = my;
